@@ -9,7 +9,8 @@ EXTENDS StormFfi
 CONSTANTS Budget,      \* calls per thread
           CallFns,     \* functions the programs may call
           MaxOpen,     \* bound on simultaneously + ever opened archives (ids) to keep the scope finite
-          HashCap      \* capacity given to created (writable) archives
+          HashCap,     \* capacity given to created (writable) archives
+          PreOpen      \* archives already open in the initial state (0, 1 or 2)
 
 VARIABLE vbudget
 mcvars == <<vars, vbudget>>
@@ -18,8 +19,22 @@ D1 == <<7, 8>>
 D2 == <<5>>
 Disk0 == [f \in ArchFiles |-> [x \in Names |-> IF x = "x" THEN (IF f = "A" THEN D1 ELSE D2) ELSE None]]
 
+\* PreOpen = 0: nothing open.  PreOpen = 1: handle 1 = "A" opened read-only by an earlier call.
+\* PreOpen = 2: additionally handle 2 = "B" created writable (empty, capacity HashCap).
 MCInit ==
-    /\ InitWith(Disk0, [f \in ArchFiles |-> 16])
+    /\ vdisk = (IF PreOpen = 2 THEN [Disk0 EXCEPT !["B"] = NoMap] ELSE Disk0)
+    /\ vcap = [f \in ArchFiles |-> IF PreOpen = 2 /\ f = "B" THEN HashCap ELSE 16]
+    /\ varch = [a \in 1..PreOpen |->
+                  IF a = 1 THEN [file |-> "A", mut |-> FALSE, sess |-> Disk0["A"], snap |-> Disk0["A"], cap |-> 16]
+                           ELSE [file |-> "B", mut |-> TRUE, sess |-> NoMap, snap |-> NoMap, cap |-> HashCap]]
+    /\ vfiles = <<>> /\ vfinds = <<>>
+    /\ vnext = PreOpen + 1
+    /\ vlock = [l \in Locks |-> Free]
+    /\ vpc = [t \in Threads |-> "Idle"]
+    /\ vfr = [t \in Threads |-> NullFrame]
+    /\ vret = [t \in Threads |-> NoRet]
+    /\ vlast = [t \in Threads |-> "ok"]
+    /\ vclosed = {}
     /\ vbudget = [t \in Threads |-> Budget]
 
 Handles == 0..Min(vnext, MaxOpen + 1)
